@@ -470,4 +470,30 @@ def run(ctx, prog):
                  'file reads: %d, failure returned: %s; %s' % (len(rd), okr, ('returns something that was not decoded from the file: %s' % other8[0][:160]) if other8 else 'Ok value: %s' % (oks8[0][:120] if oks8 else 'none')))
     if not mf:
         ctx.missing('C13.R8', 'function persistence::Manifest::load')
+    # ------------------------------------------------------------------ R9 which snapshot the fallback scan starts with
+    ctx.rule('C13.R9', 'when the snapshot the MANIFEST names cannot be loaded, Snapshot::load_with_validation scans the directory newest first and skips the candidates up to '
+                       'AND INCLUDING the named one — found by equality. A named file that is not in the directory (a flipped digit in MANIFEST.latest_snapshot) skips '
+                       'nothing, so the newest intact snapshot is tried first and recovery is exact; an order-based skip ("everything not older than the named number") '
+                       'passes over the real latest snapshot and loads an older one whose following log segments were compacted away. (That a fallback is accepted '
+                       'under Strict at all is the known finding of R5; this rule pins the one case in which the fallback is harmless)')
+    lv = ctx.body('C13.R9', 'Snapshot::load_with_validation')
+    if lv is not None:
+        util.bind_role(lv, 'skip_count', type_rx=r'^usize$', used_as=(r'Iterator::skip$', 1))
+        sk = lv.var_local('skip_count')
+        so = flow.render(flow.Origin(lv).of_local(sk[0])) if sk else ''
+        pos_cl = None
+        m9 = re.search(r'Option::and_then\(.*, closure:([\w:<> ]*\{closure#\d+\})\{', so)
+        eq_ok = False
+        for b in prog.family(lv):
+            if b.kind != 'Closure':
+                continue
+            r_ = flow.render(flow.Origin(b).of_local(0))
+            mp = re.match(r"^<iter::Iter<'a, T> as iterator::Iterator>::position\(slice::iter\(cap:\w+\), closure:([^{]*\{closure#\d+\}(?:::\{closure#\d+\})?)\{arg:\w+\}\)$", r_)
+            if mp:
+                for b2 in prog.family(lv):
+                    if b2.kind == 'Closure' and b2.id.endswith(mp.group(1)):
+                        eq_ok = bool(re.match(r'^\(arg:_\d+\.0 Eq cap:\w+\)$|^\(cap:\w+ Eq arg:_\d+\.0\)$', flow.render(flow.Origin(b2).of_local(0))))
+        shape = bool(re.match(r'^Option::unwrap_or\(Option::map\(Option::and_then\(.*\), closure:[^)]*\), 0\)$', so))
+        ctx.inst('C13.R9', lv.short, 'the scan skips up to the named snapshot found by equality; a missing named file skips nothing', bool(sk) and shape and eq_ok,
+                 'skip_count = %s … ; position() predicate is an equality with the named number: %s' % (so[:60], eq_ok))
     ctx.stat('functions_analysed', len(set(i['key'].split(' | ')[1] for i in ctx.instances)))
